@@ -425,6 +425,9 @@ B("b-drain-extracted-helper", ["C03", "C04", "C06"],
         return first_result
 
     def _trigger(self, trigger_data: TriggerData):"""))
+B("b-bare-except-clears", ["C01", "C03", "C04", "C06", "C14"],
+  E(SYNC, "                    except BaseException:", "                    except:  # noqa: E722"),
+  E(ASYNC, "                    except BaseException:", "                    except:  # noqa: E722"))
 B("b-clear-by-rebinding-deque", ["C03", "C04", "C06"],
   E(ASYNC, "                        self._external_queue.clear()", "                        self._external_queue = deque()"),
   E(ASYNC, "from typing import TYPE_CHECKING\n", "from collections import deque\nfrom typing import TYPE_CHECKING\n"))
